@@ -41,7 +41,7 @@ def plan(tier, seed):
 def mandatory_bins(tier):
     b = ["hash_" + h for h in HASHES] + ["enc_" + e for e in ENCODINGS]
     b += ["digest_longer_than_order", "key_scalar_1", "key_scalar_n-1", "lib_sig_verified_by_openssl", "openssl_sig_verified_by_lib", "rfc6979_compared", "message_bit_flips", "signature_bit_flips",
-          "other_key", "forged_r_0", "forged_s_0", "forged_r_n", "forged_s_n", "forged_r_n_plus_1", "forged_2^k", "malformed_truncated", "malformed_extended", "malformed_retagged", "high_s_and_low_s"]
+          "other_key", "forged_r_0", "forged_s_0", "forged_r_n", "forged_s_n", "forged_r_n_plus_1", "forged_2^k", "malformed_truncated", "malformed_extended", "malformed_retagged", "high_s_and_low_s", "verifying_key_with_precomputed_tables"]
     return b
 
 
@@ -114,6 +114,21 @@ def run_shard(spec, ctx):
             sk = K.SigningKey.from_secret_exponent(d, curve=cv, hashfunc=hf)
             vk = sk.verifying_key
             vk_other = K.SigningKey.from_secret_exponent(other_d, curve=cv, hashfunc=hf).verifying_key
+            if (ki + hi) % 2:
+                # the same key with (lazily) precomputed multiplication tables must behave identically
+                vk = K.SigningKey.from_secret_exponent(d, curve=cv, hashfunc=hf).verifying_key
+                vk.precompute(lazy=bool(ki % 2))
+                ctx.bin("verifying_key_with_precomputed_tables")
+                if hi == 1 and ki < 3:
+                    # observation only (precompute() is not part of the property): a key loaded with from_string carries a
+                    # point without order, and precompute() on it makes the next verify fail with AssertionError
+                    try:
+                        v2 = K.VerifyingKey.from_string(vk.to_string(), curve=cv, hashfunc=hf)
+                        v2.precompute(lazy=True)
+                        v2.verify(sk.sign(b"x", hashfunc=hf), b"x", hashfunc=hf)
+                        ctx.note("precompute_on_key_loaded_from_string_works")
+                    except Exception as e:
+                        ctx.note("precompute_on_key_loaded_from_string_fails_with_" + type(e).__name__)
             msg = rng.randbytes(16)
             digest = hf(msg).digest()
             for ei, ename in enumerate(ENCODINGS):
